@@ -195,6 +195,16 @@ def run(ck):
                 lens = [a[2] for a in o if a[0] == "call" and a[1].endswith("::len")]
                 ck.ob("DOM", f.path, "recorded-before-append:" + fld, lens and all(f.dominates(lb, pb) and lb != pb for lb in lens for (pb, _) in pushes),
                       "the length is taken before the new root is migrated/pushed", f.loc(bi))
+        # ... and every generation that is pushed carries that checkpoint (a generation pushed with a default, all-zero
+        # checkpoint makes the rollback to its parent truncate every table to length 0)
+        gp = [(bi, t) for (bi, t) in f.calls(r"Vec::<T, A>::push$|Vec::<T>::push$") if len(t["args"]) > 1 and op_place(t["args"][1]) and "Generation" in f.locals[op_place(t["args"][1])[0]]]
+        for n_, (bi, t) in enumerate(gp):
+            o = f.origins(t["args"][1], deep=True)
+            ok = any(a[0] == "agg" and "low_level::Checkpoint" in a[1] for a in o) and has_call_origin(o, r"Generation::new_with_checkpoint$")
+            ck.ob("DEFUSE", f.path, "pushed-generation-carries-the-checkpoint#%d" % n_, ok,
+                  "the pushed generation is built with the checkpoint of the current table lengths" if ok else
+                  "a generation is pushed without the checkpoint recorded above (Generation::new uses an all-zero checkpoint): rolling back to its parent truncates the tables of older generations", f.loc(bi))
+        ck.floor("DEFUSE", "generations pushed by new_generation", len(gp), 2)
     for name in ("normalize",):
         f = getfn(ck, "sc", E, MT + name)
         if not f:
